@@ -85,3 +85,53 @@ def v2_file(threads, pad, records, is_64bit=1, tick_frequency=24000000):
 def fold_threadmap(threads):
     """the tables a thread map declares: later entries win -> (tid->pid, pid->name) as association lists"""
     return [(t, p) for t, p, _ in threads], [(p, n.decode()) for _, p, n in threads]
+
+
+# ------------------------------------------------------------------------------ kernel emitters of split texts
+def chunk_lookup(text, vnode_id):
+    """kdebug_vfs_lookup (bsd/vfs/vfs_lookup.c): the first record carries the vnode id and 3 longs (24 bytes) of the
+    path, every following record 4 longs (32 bytes); unused bytes are NUL; START on the first record, END on the last
+    (both on a single record), no qualifier on the ones in between.  -> [(qualifier, 32 data bytes)]"""
+    chunks = [text[:24]]
+    rest = text[24:]
+    while len(rest):
+        chunks.append(rest[:32])
+        rest = rest[32:]
+    out = []
+    for i, ch in enumerate(chunks):
+        q = (DBG_FUNC_START if i == 0 else 0) | (DBG_FUNC_END if i == len(chunks) - 1 else 0)
+        if i == 0:
+            data = to_le(vnode_id, 8) + ch + bytes(24 - len(ch))
+        else:
+            data = ch + bytes(32 - len(ch))
+        out.append((q, data))
+    return out
+
+
+def chunk_string(text, debugid, str_id):
+    """kernel_debug_string (bsd/kern/kdebug.c): first record = debug id, string id and 16 bytes of the string (START),
+    then 32 bytes per record, END on the last record (both on a single record)"""
+    chunks = [text[:16]]
+    rest = text[16:]
+    while len(rest):
+        chunks.append(rest[:32])
+        rest = rest[32:]
+    out = []
+    for i, ch in enumerate(chunks):
+        q = (DBG_FUNC_START if i == 0 else 0) | (DBG_FUNC_END if i == len(chunks) - 1 else 0)
+        if i == 0:
+            data = to_le(debugid, 8) + to_le(str_id, 8) + ch + bytes(16 - len(ch))
+        else:
+            data = ch + bytes(32 - len(ch))
+        out.append((q, data))
+    return out
+
+
+def chunk_simple(text):
+    """kernel_debug_string_simple: 32 bytes per record, START on the first, END on the last"""
+    chunks = [text[i:i + 32] for i in range(0, len(text), 32)] or [text[:0]]
+    out = []
+    for i, ch in enumerate(chunks):
+        q = (DBG_FUNC_START if i == 0 else 0) | (DBG_FUNC_END if i == len(chunks) - 1 else 0)
+        out.append((q, ch + bytes(32 - len(ch))))
+    return out
